@@ -24,6 +24,11 @@ struct scanner {
 
 static struct scanner *scanner;
 
+#ifdef CPROC_VERIF
+/* verification hook: called each time scankind (re)starts at a token boundary */
+void (*verif_again)(struct scanner *, struct location *);
+#endif
+
 static void
 bufadd(struct buffer *b, int c)
 {
@@ -275,6 +280,10 @@ scankind(struct scanner *s, struct location *loc)
 	struct location oldloc;
 
 again:
+#ifdef CPROC_VERIF
+	if (verif_again)
+		verif_again(s, loc);
+#endif
 	*loc = s->loc;
 	switch (s->chr) {
 	case ' ':
